@@ -159,10 +159,16 @@ Definition wf_case (c : tcase) : Prop :=
 
 Definition spec_ok (c : tcase) : bool := spec_ops (o_srcs c) None (c_ops c).
 
-Definition v_cur : variant := mkVar EqLen FsKeep.
-Definition v_eq : variant := mkVar EqFull FsKeep.
-Definition v_fs : variant := mkVar EqLen FsReset.
-Definition v_fixed : variant := mkVar EqFull FsReset.
+(** the 8 variants: equality x fullsync-token x in-batch-duplicate rule *)
+Definition v_cur : variant := mkVar EqLen FsKeep DupStoredAndLocal.     (* the pinned tree *)
+Definition v_eq : variant := mkVar EqFull FsKeep DupStoredAndLocal.
+Definition v_fs : variant := mkVar EqLen FsReset DupStoredAndLocal.
+Definition v_eqfs : variant := mkVar EqFull FsReset DupStoredAndLocal.
+Definition v_dup : variant := mkVar EqLen FsKeep DupLocalElseStored.
+Definition v_eqdup : variant := mkVar EqFull FsKeep DupLocalElseStored. (* F01a + F02a repaired *)
+Definition v_fsdup : variant := mkVar EqLen FsReset DupLocalElseStored.
+Definition v_fixed : variant := mkVar EqFull FsReset DupLocalElseStored.
+Definition all_variants : list variant := [v_cur; v_eq; v_fs; v_eqfs; v_dup; v_eqdup; v_fsdup; v_fixed].
 
 (** what the model predicts, for the replay printout *)
 Definition predict (v : variant) (c : tcase) :=
@@ -171,15 +177,9 @@ Definition predict (v : variant) (c : tcase) :=
       (filter (fun so => match snd so with Some _ => true | None => false end)
               (exec v (init_state (c_members c)) (map (op_of c) (c_ops c)))).
 
-(** [mismatches under current; EqFull only; FsReset only; fixed; spec failures on I;
+(** [mismatches under each of the 8 variants (order of all_variants); spec failures on I;
      sink-feed-length drift under each variant] *)
 Definition evaluate (cs : list tcase) : list (list N) :=
-  [ indices_where (fun c => negb (agree v_cur c)) cs;
-    indices_where (fun c => negb (agree v_eq c)) cs;
-    indices_where (fun c => negb (agree v_fs c)) cs;
-    indices_where (fun c => negb (agree v_fixed c)) cs;
-    indices_where (fun c => negb (spec_ok c)) cs;
-    indices_where (fun c => negb (agree_sinklen v_cur c)) cs;
-    indices_where (fun c => negb (agree_sinklen v_eq c)) cs;
-    indices_where (fun c => negb (agree_sinklen v_fs c)) cs;
-    indices_where (fun c => negb (agree_sinklen v_fixed c)) cs ].
+  map (fun v => indices_where (fun c => negb (agree v c)) cs) all_variants
+  ++ [indices_where (fun c => negb (spec_ok c)) cs]
+  ++ map (fun v => indices_where (fun c => negb (agree_sinklen v c)) cs) all_variants.
